@@ -48,7 +48,7 @@ impl Iso {
 
 struct NoPool;
 impl Pool for NoPool {
-    fn get(&self, _text: &str) -> Option<Arc<Value>> {
+    fn get(&self, _pos: usize, _text: &str) -> Option<Arc<Value>> {
         None
     }
 }
